@@ -25,6 +25,30 @@ CLAIMED["C07"] = dict(level="exploration", technique="bounded exhaustive enumera
 CLAIMED["C03"] = dict(level="exploration", technique="exhaustive enumeration of byte strings (all 256-ary strings <=2, reduced-alphabet strings <=L, argument sweep, single-edit neighbourhoods) x entry points x chunkings on the real parsers/decoders with a deterministic step budget and allocation meter",
    text="Every byte string of the bounded spaces is run through Parse, ParseString, ParseReader, Write, the byte-slice and the reader pull decoders under whole / single-cut / single-byte chunkings; the oracle is no panic, a deterministic budget of instrumented steps (hang detection without wall clock), an allocation bound measured with runtime/metrics, termination of the Next loop, and truncated input (reference verdict) reported as an error other than io.EOF.",
    note="bytes outside the reduced alphabets beyond length 2 are represented by default-branch symbols; step budget counts instrumented function entries/loop iterations; UBJSON documents whose counted payload-less typed containers denote more events than the step budget are excluded from the budget oracle (amplification is inherent in the format)", ref="DESIGN.md §5 C03")
+CLAIMED["C08"] = dict(level="exploration", technique="exhaustive enumeration of valid source documents x 9 codec pairs x entry points x chunkings on the real parser->encoder connection; reference decoders on both sides + direct-vs-replay differential",
+   text="Valid documents of each wire language (incl. foreign shapes) and streams of 2-3 container documents are transcoded by connecting the real parser directly to the real encoder for all 9 pairs, through ParseReader and the Decoder.Next loop under whole/single-cut/single-byte chunkings; the target is judged by the target format's reference decoder against the source's reference value, and the bytes are compared with a replay of the copied event recording.",
+   note="reference decoders trusted; JSON targets are expected to refuse non-finite floats; out-of-range JSON literals may be rejected (C04)", ref="DESIGN.md §5 C08")
+CLAIMED["C09"] = dict(level="exploration", technique="contract monitor behind every producer over the exhaustive document, Go type x value and extended-event spaces",
+   text="The Visitor-contract monitor (balance, nesting, key/value alternation, announced length, announced element type, single top-level value) checks the event stream of the three parsers on every accepted document of the C04-C06 languages (Parse and byte-wise Write), of Fold on every (type, value) of the C12 space and of the extended-event adapters.",
+   note="bounds of the underlying languages; monitor rules in mc/model/contract.go", ref="DESIGN.md §5 C09")
+CLAIMED["C10"] = dict(level="exploration", technique="exhaustive pairing of every extended event with its basic-event expansion over positions x follow-ups x 12 consumers on the real code; value, follow-up bytes and private-state fingerprint compared",
+   text="Run A delivers the extended call, run B its expansion to a second fresh consumer; decoded values (reference decoders), bytes written after the event, the reflective fingerprint of the consumer's private state, unfolded Go values and recorded events must agree.",
+   note="fingerprint abstraction as in C17; map-derived members unordered", ref="DESIGN.md §5 C10")
+CLAIMED["C11"] = dict(level="exploration", technique="exhaustive enumeration of Go types (reflect.StructOf over field-type x tag alphabets + compiled seeds) x values x 4 routes on the real Fold/encoders/parsers/Unfolder",
+   text="Every (type, value) of the bounded space is folded and unfolded into a fresh variable directly and through each codec; the documented-mapping model of the result must equal that of the original, untransferred fields must stay zero, unsupported types must be refused by error. Two known findings (uint64 above MaxInt64 through UBJSON) are listed in known_findings.json.",
+   note="types limited to reflect.StructOf + seeds; comparison through the value model for interface-typed parts", ref="DESIGN.md §5 C11")
+CLAIMED["C12"] = dict(level="exploration", technique="exhaustive enumeration of Go types x values on the real Fold against an executable model of the documented tag rules",
+   text="Every (type, value) of the bounded space, folded by value and by pointer, must emit exactly the value computed by model.RefFold (the tag rules written down independently), or an error where the model refuses the type.",
+   note="the model (mc/model/reffold.go) is the trusted reading of the documentation; ambiguous corners accepted both ways and counted", ref="DESIGN.md §5 C12")
+CLAIMED["C16"] = dict(level="fault_enumeration", technique="fault enumeration: every write index k of every stream / every event index k of every document, Go value and adapter run, on the real code",
+   text="Dry run counts the W writes (E events); for every k the k-th (and every later) write fails, or the visitor fails at event k; encoders must report an error no later than the last event; producers must return exactly the injected error and deliver nothing after it.",
+   note="persistent writer failure as stated by the property; Fold on a fixed value set here (type space in C09/C12)", ref="DESIGN.md §5 C16")
+CLAIMED["C17"] = dict(level="model_checking", technique="explicit-state breadth-first search over instance histories with reflective private-state fingerprints; successors rebuilt by replaying the history on a fresh real instance",
+   text="For 14 components (3 encoders, 3 parsers, 6 pull decoders, iterator, unfolder) all histories up to the unpruned depth and fingerprint-pruned BFS beyond; on every transition the probe document's output equals the output on a new instance and the idle part of the private state equals a new instance's.",
+   note="fingerprint abstraction (skipped storage is write-before-read) validated by the unpruned depth; histories contain only accepted documents", ref="DESIGN.md §5 C17")
+CLAIMED["C18"] = dict(level="model_checking", technique="stateless model checking of the reader schedule: every Read answer size chosen by the explorer (all compositions for short streams, deviation-bounded beyond), EOF style, buffer sizes, on the real pull decoders",
+   text="Streams of k values and all their truncations x {byte-slice, reader} decoders x buffer sizes x every read-size sequence x EOF together with / after the last bytes; one reference value per successful Next, then io.EOF; truncation => error other than io.EOF.",
+   note="zero-byte reads not generated (outside the statement)", ref="DESIGN.md §5 C18")
 REASONS = {}
 
 def main():
